@@ -52,6 +52,100 @@ def _variant_of_self(pf, adt, self_arg=1):
     return None
 
 
+def _follow_forwarder(f, body, depth=0):
+    """a function that only hands its own arguments to one crate-local function and returns what that returns is that function, for the
+    purpose of table extraction (a `match` moved into a private helper)"""
+    if body is None or depth >= 3:
+        return body
+    calls = [(bi, t) for bi, t in body.calls()]
+    local_calls = [(bi, t) for bi, t in calls if t['callee'].get('local')]
+    if len(calls) != 1 or len(local_calls) != 1:
+        return body
+    bi, t = local_calls[0]
+    args = [_strip(body.tree_of_operand(a)) for a in t['args']]
+    if not all(a[0] == 'arg' for a in args) or [a[1] for a in args] != list(range(1, len(args) + 1)) or len(args) != body.arg_count:
+        return body
+    rets = [pf.ret for pf in all_path_facts(body) if pf.returns]
+    if not rets or not all(rt is not None and rt[0] == 'call' and rt[3] == bi for rt in rets):
+        return body
+    d = callee_def(t['callee'])
+    hb = f.generic_body(d) if d else None
+    if hb is None:
+        return body
+    return _follow_forwarder(f, Body(hb), depth + 1)
+
+
+def _ctor_table_through_helper(f, fb, adt_path):
+    """(literal -> {variant}, default rejects, problem or None) when fb looks names up in a crate-local helper returning Option<constructor>"""
+    helper = None
+    for bi, t in fb.calls():
+        if t['callee'].get('local') and t['callee'].get('def') and any('fn(' in str(a) for a in [t['dest'].get('ty', '')] + [fb.local_ty(t['dest']['l'])]):
+            helper = (bi, t)
+    if helper is None:
+        return None
+    hbi, ht = helper
+    hb = f.generic_body(callee_def(ht['callee']))
+    if hb is None:
+        return None
+    hbody = Body(hb)
+    lit2var = {}
+    default_none = False
+    for pf in all_path_facts(hbody):
+        if not pf.returns:
+            continue
+        sd = pf.str_decisions()
+        trues = [l for o, l, t in sd if t]
+        ret = pf.ret
+        some = ret is not None and ret[0] == 'agg' and str(ret[2]).endswith('Option::Some')
+        ctor = None
+        if some:
+            for x in walk_tree(ret[3][0]):
+                if isinstance(x, tuple) and x and x[0] == 'fn' and str(x[1]).startswith(adt_path + '::'):
+                    ctor = x[1].rsplit('::', 1)[-1]
+        if len(trues) == 1:
+            if ctor is None:
+                return lit2var, False, 'literal: "%s" does not select a constructor of %s' % (trues[0], adt_path)
+            lit2var.setdefault(trues[0], set()).add(ctor)
+        elif not trues and sd:
+            if some:
+                return lit2var, False, 'default: an unknown name selects a constructor'
+            default_none = True
+    # from_str: Some(c) => Ok(c(parsed period)), None => Err
+    applied = False
+    default_ok = False
+    for pf in all_path_facts(fb):
+        if not pf.returns:
+            continue
+        opt = None
+        for d, vals, blk, allv in pf.decisions:
+            if d[0] == 'discr' and any(isinstance(x, tuple) and x and x[0] == 'call' and x[3] == hbi for x in walk_tree(d)):
+                opt = 'None' if (vals != 'otherwise' and 0 in vals) else 'Some'
+        ret = pf.ret
+        is_ok = ret is not None and ret[0] == 'agg' and str(ret[2]).endswith('Result::Ok')
+        if opt == 'None':
+            if is_ok:
+                return lit2var, False, 'default: from_str answers Ok when the helper knows no such name'
+            default_ok = default_none
+        elif opt == 'Some' and is_ok:
+            inner = _strip(ret[3][0])
+            # an indirect call of the selected constructor with the parsed period
+            ok = False
+            for bi, t in fb.calls():
+                if t['callee'].get('def') is None and t['callee'].get('fn_op') is not None and bi in pf.path:
+                    fo = fb.tree_of_operand(t['callee']['fn_op'])
+                    from_helper = any(isinstance(x, tuple) and x and x[0] == 'call' and x[3] == hbi for x in walk_tree(fo))
+                    arg = fb.tree_of_operand(t['args'][0]) if t['args'] else ('?',)
+                    parsed = any(isinstance(x, tuple) and x and x[0] == 'call' and (x[4].endswith('::parse') or x[4].endswith('FromStr::from_str')) for x in walk_tree(arg))
+                    if from_helper and parsed:
+                        ok = True
+            if not ok:
+                return lit2var, default_ok, 'period: the selected constructor is not applied to the parsed period'
+            applied = True
+    if not applied:
+        return lit2var, default_ok, 'apply: from_str never applies the selected constructor'
+    return lit2var, default_ok, None
+
+
 def s06_ma_dispatch(ctx):
     f = ctx.facts('default')
     m = Model(f)
@@ -226,6 +320,16 @@ def s06_ma_dispatch(ctx):
                 r.violate('MA|from_str|<default>|ok', 'unknown method names are accepted', fb.file, fb.line)
             else:
                 default_ok = True
+    if not lit2var and not default_ok:
+        # the name table may live in a helper that returns the variant *constructor* (`fn(PeriodType) -> MA`) for a name, from_str
+        # applying it to the parsed period: `match Self::constructor_by_name(method) { Some(c) => Ok(c(length)), None => Err(..) }`
+        got = _ctor_table_through_helper(f, fb, MA['path'])
+        if got is not None:
+            lit2var, default_ok, why = got
+            if why:
+                r.violate('MA|from_str|helper-table|' + why.split(':')[0], 'from_str (name table in a helper): %s' % why, fb.file, fb.line)
+            for lit in lit2var:
+                r.inst('MA|from_str|"%s"' % lit)
     if not default_ok:
         r.violate('MA|from_str|<default>|missing', 'from_str has no rejecting default arm', fb.file, fb.line)
     var2lit = {}
@@ -265,7 +369,7 @@ def s18_source_tables(ctx):
     if len(fimp) != 1 or len(gimp) != 1:
         raise Broken('FromStr for Source / From<Source> for &str not found (%d, %d)' % (len(fimp), len(gimp)))
     fb = m.body(m.impl_fn_path(fimp[0], 'from_str'))
-    gb = m.body(m.impl_fn_path(gimp[0], 'from'))
+    gb = _follow_forwarder(f, m.body(m.impl_fn_path(gimp[0], 'from')))
     # F: literal -> variant
     F = {}
     default_err = False
@@ -572,6 +676,51 @@ def s18c_validate_boxes(ctx):
     return r
 
 
+def _validate_loop_form(b, calls, names, pred, PASS):
+    """None if the loop visits every element of self.as_ref() and answers false exactly at the first element failing `pred`"""
+    allowed = set(PASS) | {'into_iter', 'next'}
+    pcalls = [(bi, t) for bi, t in calls if (callee_def(t['callee']) or '') == pred or ((t['callee'].get('res') or {}).get('def') == pred)]
+    others = [t['callee'].get('name') for bi, t in calls if (bi, t) not in pcalls and t['callee'].get('name') not in allowed]
+    if others:
+        return 'adaptor: passes its elements through `%s`' % others[0]
+    if len(pcalls) != 1:
+        return 'predicate: %d calls of %s (expected one per element)' % (len(pcalls), pred)
+    if not any(x[0] == 'call' and x[4].endswith('AsRef::as_ref') and _strip(x[2][0])[0] == 'arg' and _strip(x[2][0])[1] == 1
+               for bi, t in calls for a in t['args'] for x in walk_tree(b.tree_of_operand(a))):
+        return 'source: does not iterate over self.as_ref()'
+    pbi = pcalls[0][0]
+    n_true = n_false = 0
+    for pf in all_path_facts(b):
+        if not pf.returns:
+            continue
+        ret = pf.ret
+        if not (ret is not None and ret[0] == 'const' and isinstance(ret[2], bool)):
+            return 'result: returns %s, not a boolean decided by the loop' % (tree_str(ret)[:40] if ret else None)
+        pdec = None
+        none_seen = False
+        for d, vals, blk, allv in pf.decisions:
+            if any(isinstance(x, tuple) and x and x[0] == 'call' and x[3] == pbi for x in walk_tree(d)):
+                neg = d[0] == 'un' and d[1] == 'Not'
+                truth = not (vals != 'otherwise' and 0 in vals)
+                pdec = (not truth) if neg else truth
+            if d[0] == 'discr' and any(isinstance(x, tuple) and x and x[0] == 'call' and x[4].endswith('::next') for x in walk_tree(d)):
+                if vals != 'otherwise' and 0 in vals:
+                    none_seen = True
+        if ret[2] is False:
+            n_false += 1
+            if pdec is not False:
+                return 'result: a path answers false without an element failing the test'
+        else:
+            n_true += 1
+            if pdec is False:
+                return 'result: a path answers true although an element failed the test'
+            if not none_seen:
+                return 'result: a path answers true before the iteration is exhausted'
+    if not n_true or not n_false:
+        return 'result: the loop cannot answer both true and false'
+    return None
+
+
 def s18d_sequence_validate(ctx):
     """Sequence::validate = every element passes the element test: the whole slice, universally quantified, the right predicate."""
     f = ctx.facts('default')
@@ -592,6 +741,14 @@ def s18d_sequence_validate(ctx):
         r.inst(key)
         calls = [(bi, t) for bi, t in b.calls()]
         names = [t['callee'].get('name') for _, t in calls]
+        if 'all' not in names and b.has_loop():
+            # the same question asked with a loop: `for x in self.as_ref().iter() { if !pred(x) { return false } } true`
+            why = _validate_loop_form(b, calls, names, pred, PASS)
+            if why:
+                r.violate(key + '|loop-form|' + why.split(':')[0], 'Sequence::validate (loop form): %s' % why, b.file, b.line)
+            else:
+                r.sample({'sequence of': key.split('|')[1], 'decides with': 'loop over self.as_ref().iter(): false at the first element failing %s, true after the last' % pred})
+            continue
         bad = [x for x in names if x not in PASS and x != 'all']
         if bad:
             r.violate(key + '|adaptor|' + str(bad[0]), 'Sequence::validate passes its slice through `%s` before testing the elements: some elements are not examined / another question is asked' % bad[0], b.file, b.line)
